@@ -157,6 +157,7 @@ func Run(r *engine.RNG, cfg Config, p Params) *Session {
 					s.fail("C06", "reopen", "reopening the queue failed")
 					return s
 				}
+				s.Counters() // counters and Available of a reader initialised from the file
 			}
 		}
 		if r.Chance(40) {
